@@ -3,8 +3,8 @@
    `get vf false` is the faithful model of the (repaired) code; `vf` (the virtual sensor functions) is universally
    quantified; sensor_valid_statuses / sensor_status_width are regenerated from the source on every run. *)
 From Coq Require Import ZArith QArith List Bool String.
-From KV Require Import Base.Sx Base.Str Gen.Generated Model.Interp Model.SensorCache Model.SensorWild
-  Proofs.InterpP Proofs.SensorCacheP Proofs.SensorWildP.
+From KV Require Import Base.Sx Base.Str Gen.Generated Model.Interp Model.SensorCache Model.SensorWild Model.SensorVirt
+  Proofs.InterpP Proofs.SensorCacheP Proofs.SensorWildP Proofs.SensorVirtP.
 Import ListNotations.
 Open Scope Q_scope.
 
@@ -232,3 +232,88 @@ Theorem C12_props_nonmatching_irrelevant : forall name pm1 k v pm2 base,
   merge_wild name (pm1 ++ (k, v) :: pm2) base = merge_wild name (pm1 ++ pm2) base.
 Proof. exact merge_wild_irrelevant. Qed.
 Print Assumptions C12_props_nonmatching_irrelevant.
+
+(* ---- built-in virtual sensors (mjd, lst, az/el, ra/dec, parangle, target_x/y, u/v/w): pointwise in the dump ---- *)
+
+(* The documented function of a built-in virtual sensor is a function of ONE dump: its timestamp and the values of the
+   source sensors at that dump (`pf`, universally quantified: katpoint is not modelled).  Read through the cache, the
+   full-length result is pf applied dump by dump; with the time selection it is pf applied to the SELECTED dumps and
+   the selected source values - the virtual sensor of a sub-grid is the sub-grid of the virtual sensor - and every
+   produced name is cached full-length; raw samples untouched. *)
+Theorem C12_virtual_pointwise : forall pf fuel c name select extract kw v c1 vals k,
+  select && negb extract = false ->
+  r_lookup name (c_raw c) = None ->
+  find (fun v => mem_string name (v_names v)) (c_virt c) = Some v ->
+  eval_srcs (fun c' s => get (vf_pw pf) false fuel c' s false true p_empty) c (v_srcs v) = (c1, inl vals) ->
+  index_of_name name (v_names v) = Some k -> NoDup (v_names v) ->
+  let '(c', r) := get (vf_pw pf) false (S fuel) c name select extract kw in
+  r = RVals (if select then pw (pf (v_fid v) k) (map (select_mask (c_keep c)) vals) (select_mask (c_keep c) (c_ts c))
+             else pw (pf (v_fid v) k) vals (c_ts c)) /\
+  (forall j n, nth_error (v_names v) j = Some n ->
+     r_lookup n (c_raw c') = Some (EVals (pw (pf (v_fid v) j) vals (c_ts c)))) /\
+  c_store c' = c_store c.
+Proof. exact virtual_pointwise. Qed.
+Print Assumptions C12_virtual_pointwise.
+
+(* Dump i of the result is pf of timestamps[i] and of the source values AT dump i ... *)
+Theorem C12_virtual_dump_local : forall pf fid k vals ts i t,
+  nth_error ts i = Some t -> nth_error (vf_pw pf fid k vals ts) i = Some (pf fid k t (at_dump i vals)).
+Proof. exact virtual_dump_local. Qed.
+Print Assumptions C12_virtual_dump_local.
+
+(* ... hence independent of every other dump, of the spacing of the grid (the dump period, dropped or late dumps) and
+   of the number of dumps: two grids that agree at one dump give the same value there. *)
+Theorem C12_virtual_independent_of_neighbours : forall f ts vals i ts' vals' j,
+  nth_error ts i = nth_error ts' j -> at_dump i vals = at_dump j vals' ->
+  nth_error (pw f vals ts) i = nth_error (pw f vals' ts') j.
+Proof. exact pw_local. Qed.
+Print Assumptions C12_virtual_independent_of_neighbours.
+
+(* Selection and concatenation of dump grids commute with a pointwise virtual sensor. *)
+Theorem C12_virtual_select_concat :
+  (forall f ts m vals, select_mask m (pw f vals ts) = pw f (map (select_mask m) vals) (select_mask m ts)) /\
+  (forall f ts1 ts2 vals1 vals2,
+     Forall (fun v => List.length v = List.length ts1) vals1 -> List.length vals1 = List.length vals2 ->
+     pw f (zip_app vals1 vals2) (ts1 ++ ts2) = (pw f vals1 ts1 ++ pw f vals2 ts2)%list).
+Proof. exact (conj pw_select pw_app). Qed.
+Print Assumptions C12_virtual_select_concat.
+
+(* Concatenated cache: when every part yields values for a (virtual or real) sensor, the result is the concatenation of
+   the per-part results in order - each part evaluates the virtual sensor on its OWN dumps. *)
+Theorem C12_concat_all_parts : forall vf cc name select kw p2 r2,
+  gets vf false (cc_parts cc) name select true kw = (p2, r2) ->
+  forallb is_vals r2 = true -> r2 <> [] ->
+  exists l, concat_vals r2 = Some l /\
+    cget vf false cc name select true kw = (mkCC p2 (snd (get_props name (cc_props cc) kw)), RVals l).
+Proof. exact cget_all_vals. Qed.
+Print Assumptions C12_concat_all_parts.
+
+(* Timestamps/mjd: the documented function MJD(t) = t / 86400 + 40587 of every dump timestamp (no sources); MJD
+   differences track timestamp differences on every grid. *)
+Theorem C12_mjd : (forall vals ts, pw mjd_pf vals ts = map (fun t => Some (mjd_q t)) ts) /\
+  (forall a b, mjd_q b - mjd_q a == (b - a) / 86400) /\ mjd_q 0 == 40587 /\ mjd_q 86400 == 40588.
+Proof. exact (conj mjd_pw (conj mjd_diff mjd_epoch)). Qed.
+Print Assumptions C12_mjd.
+
+(* The statement discriminates (seeded change C12-4: "convert the first dump, step the rest along at the dump period"):
+   stepping agrees with the documented function on a perfectly regular grid whose spacing is the dump period, and
+   differs from it as soon as one dump is missing. *)
+Theorem C12_mjd_stepping_refuted :
+  (forall n t0 p, Forall2 Qeq (mjd_stepped p (regular t0 p n)) (map mjd_q (regular t0 p n))) /\
+  (exists a b, nth_error (mjd_stepped 8 [0; 8; 24]) 2 = Some a /\ nth_error (map mjd_q [0; 8; 24]) 2 = Some b /\ ~ a == b).
+Proof. exact (conj mjd_stepped_regular mjd_stepped_refuted). Qed.
+Print Assumptions C12_mjd_stepping_refuted.
+
+(* From the source at every run: the virtual sensors registered by dataset.py and the four format modules, and the
+   only ways their functions use the cache: reading sensors (get), the dump timestamps, and storing what they produce
+   (cache[name] = ..., update).  In particular none reads cache.dump_period or cache.keep: the values cannot depend on
+   the nominal dump spacing or on the selection, as the model's function table assumes. *)
+Theorem C12_virtual_registry :
+  virtual_sensor_templates =
+    ["Antennas/{ant}/[uvw]"; "Antennas/{ant}/az"; "Antennas/{ant}/basis_[uvw]"; "Antennas/{ant}/dec";
+     "Antennas/{ant}/el"; "Antennas/{ant}/lst"; "Antennas/{ant}/parangle"; "Antennas/{ant}/ra";
+     "Antennas/{ant}/target_[xy]_{projection}_{coordsys}"; "Correlator/Inputs/{inp}/applied_delay";
+     "Correlator/Inputs/{inp}/applied_gain"; "Correlator/Inputs/{inp}/applied_phase"; "Timestamps/mjd"]%string /\
+  forall a, In a virtual_cache_attrs -> In a ["get"; "setitem"; "timestamps"; "update"]%string.
+Proof. exact virtual_registry. Qed.
+Print Assumptions C12_virtual_registry.
